@@ -479,15 +479,16 @@ Definition selections (s : state) : list val :=
          | None => []
          end
   end.
-Definition is_one (v : val) : bool := match v with Some 1%Z => true | _ => false end.
+(* a sample is kept by the selection when its value is defined and not 0 (same rule as isActive, Db.cpp:2702) *)
+Definition sel_on (v : val) : bool := match v with None => false | Some z => negb (z =? 0)%Z end.
 Definition truthy (v : val) : bool := match v with Some 0%Z => false | _ => true end.
-(* setColumnByUIDOldStyle(tab, iuid, useSel) Db.cpp:1499: the selection is read once, before the loop; masked
+(* setColumnByUIDOldStyle(tab, iuid, useSel) Db.cpp:1504: the selection is read once, before the loop; masked
    samples are left untouched and do not consume a value of tab *)
 Fixpoint set_col_uid_loop (es : list nat) (lec : nat) (sel tab : list val) (u : Z) (s : state) : state :=
   match es with
   | [] => s
   | e :: r =>
-      let defined := match sel with [] => true | _ => is_one (nth e sel None) end in
+      let defined := match sel with [] => true | _ => sel_on (nth e sel None) end in
       if defined then set_col_uid_loop r (S lec) sel tab u (set_cell (Z.of_nat e) u (nth lec tab None) s)
       else set_col_uid_loop r lec sel tab u s
   end.
@@ -504,7 +505,7 @@ Fixpoint set_col_col_loop (es : list nat) (lec : nat) (sel tab : list val) (c : 
   match es with
   | [] => s
   | e :: r =>
-      let defined := match sel with [] => true | _ => is_one (nth e sel None) end in
+      let defined := match sel with [] => true | _ => sel_on (nth e sel None) end in
       if defined then set_col_col_loop r (S lec) sel tab c (set_cell_col (Z.of_nat e) c (nth lec tab None) s)
       else set_col_col_loop r lec sel tab c (set_cell_col (Z.of_nat e) c None s)
   end.
@@ -543,8 +544,8 @@ Definition n_active (s : state) : nat :=
                         (seq 0 (nech s)))
   end.
 (* addColumns(tab, radix, type, index, useSel, valinit, nvar) Db.cpp:1404, general form (addColumnsByVVD, setColumn,
-   the addSelection family).  The library divides by getSampleNumber(useSel): with useSel and no active sample it
-   crashes (directed test of checks/C07.py); here the call is then a no-op *)
+   the addSelection family).  A null sample count (every sample masked with useSel, or fewer values than vectors on an
+   empty Db) is refused: "no (active) sample to be loaded", the Db keeps the sample count possibly set just before *)
 Definition add_cols_gen (tab : list val) (radix : name) (t : loctype) (k : Z) (useSel : bool) (valinit : val)
                         (nvar0 : nat) (s : state) : state :=
   match tab with
@@ -706,6 +707,18 @@ Definition step (s : state) (o : op) : state :=
   end.
 Definition run_ops (ops : list op) : state := fold_left step ops init.
 
+(* getLocatorByColIdx Db.cpp:372 (the getter [loc_of_col] below is this function) *)
+Fixpoint find_loc_pre (s : state) (c : nat) (ts : list nat) : option (nat * nat) :=
+  match ts with
+  | [] => None
+  | t :: r =>
+      match find_index (fun u => opt_is c (col_of_uid s u)) (loc s t) with
+      | Some i => Some (t, i)
+      | None => find_loc_pre s c r
+      end
+  end.
+Definition loc_of_col_pre (s : state) (c : nat) : option (nat * nat) := find_loc_pre s c (seq 0 NLOC).
+
 (* ------------------------------------------------------------------ creators
    Every creator of the library is a fixed sequence of calls of the editors above applied to the state left by
    resetDims; it is modelled as that sequence (a script of [op]), so that the invariant of the created Db follows
@@ -843,6 +856,62 @@ Definition create_subgrid (s : state) nx dx x0 lims coords : state :=
   let nxo := map (fun l => snd l - fst l) lims in
   run_script (subgrid_script s nx dx x0 lims coords) (reset_dims (grid_dims nxo [] true coords) (grid_nech nxo)).
 
+(* DbGrid::createCoarse / createRefine DbGrid.cpp:356, 553 -> Grid::multiple / divider (Grid.cpp:929, 987), DbGrid::create
+   with rank and coordinates, then migrateAllVariables DbGrid.cpp:587: the columns of the input grid other than the rank
+   (when flagAddSampleRank) and those holding an X role are migrated (values interpolated: abstracted). Table side:
+   CalcMigrate::_preprocess adds nvar columns with an empty radix, _postprocess renames them after the source columns
+   (NamingConvention with empty prefix) and gives them the roles z1..zn (default naming convention: clean + locate Z),
+   migrateAllVariables finally copies role and rank of each source column, designated by column index *)
+Definition ratval (num den : Z) : val := if (num mod den =? 0)%Z then Some (num / den)%Z else ABS.
+Definition mig_nx (refine cell : bool) (n m : nat) : nat :=
+  if refine then (if cell then n * m else 1 + (n - 1) * m)
+  else (if cell then Nat.div n m else 1 + Nat.div (n - 1) m).
+Definition mig_coord (refine cell : bool) (x0 dx : Z) (m : nat) (i : nat) : val :=
+  let mz := Z.of_nat m in let iz := Z.of_nat i in
+  if refine then
+    (if cell then ratval (2 * mz * x0 + dx * (1 - mz) + 2 * iz * dx) (2 * mz) else ratval (mz * x0 + iz * dx) mz)
+  else
+    (if cell then ratval (2 * x0 + dx * (mz - 1) + 2 * iz * dx * mz) 2 else Some (x0 + iz * dx * mz)%Z).
+Definition migrated_cols (s : state) (rank : bool) : list nat :=
+  filter (fun c => negb (rank && Nat.eqb c 0)
+                   && negb (match loc_of_col_pre s c with Some (0, _) => true | _ => false end))
+         (seq 0 (ncol s)).
+Definition migrate_script (s : state) (refine : bool) (nx : list nat) (dx x0 : list Z) (nmult : list nat)
+                          (cell rank : bool) : list op :=
+  let ndim := length nx in
+  let nxo := map (fun i => mig_nx refine cell (nth i nx 1) (nth i nmult 1)) (seq 0 ndim) in
+  let ne := grid_nech nxo in
+  let icol0 := b2n rank in
+  let icols := migrated_cols s rank in
+  let nvar := length icols in
+  let iatt := icol0 + ndim in
+  (if rank then rank_script ne else [])
+  ++ map (fun idim => SetNameCol (Z.of_nat (icol0 + idim)) (XN ++ dec (S idim))) (seq 0 ndim)
+  ++ [SetLocsRange (Z.of_nat ndim) (Z.of_nat icol0) (Some 0) 0 false]
+  ++ flat_map (fun e => map (fun idim => SetArray (Z.of_nat e) (Z.of_nat (icol0 + idim))
+                                (mig_coord refine cell (nth idim x0 0%Z) (nth idim dx 0%Z) (nth idim nmult 1)
+                                           (nth idim (grid_index nxo e) 0))) (seq 0 ndim)) (seq 0 ne)
+  ++ [SetLocsRange (Z.of_nat ndim) (Z.of_nat icol0) (Some 0) 0 false]
+  ++ match icols with
+     | [] => []
+     | _ =>
+         [AddCols (Z.of_nat nvar) (Some 0%Z) [] None 0 0]
+         ++ flat_map (fun i => map (fun e => SetArray (Z.of_nat e) (Z.of_nat (iatt + i)) ABS) (seq 0 ne)) (seq 0 nvar)
+         ++ map (fun i => SetNameUID (Z.of_nat (iatt + i))
+                            (match nth (nth i icols 0) (names s) [] with
+                             | [] => if 1 <? nvar then dec (S i) else [68; 117; 109; 109; 121]%Z
+                             | n => n end)) (seq 0 nvar)
+         ++ [ClearLoc 1]
+         ++ map (fun i => SetLocUID (Z.of_nat (iatt + i)) (Some 1) (Z.of_nat i) false) (seq 0 nvar)
+         ++ map (fun i => match loc_of_col_pre s (nth i icols 0) with
+                          | Some (t, k) => SetLocCol (Z.of_nat (iatt + i)) (Some t) (Z.of_nat k) false
+                          | None => SetLocCol (Z.of_nat (iatt + i)) None 0 false
+                          end) (seq 0 nvar)
+     end.
+Definition migrate_dims (refine : bool) (nx nmult : list nat) (cell rank : bool) : nat * nat :=
+  let nxo := map (fun i => mig_nx refine cell (nth i nx 1) (nth i nmult 1)) (seq 0 (length nx)) in
+  (b2n rank + length nx, grid_nech nxo).
+
 (* ------------------------------------------------------------------ commands: editors on a Db or a DbGrid, creators *)
 (* DbGrid::mayChangeSampleNumber() is false: addSamples / deleteSample(s) are refused *)
 Definition is_sample_edit (o : op) : bool :=
@@ -856,7 +925,8 @@ Inductive cmd :=
 | NewFill (ndat ndim nvar nfex : nat) (code varm sel : bool) (hetero : list bool) (rank : bool)
 | NewGrid (nx : list nat) (dx x0 : list Z) (bycol : bool) (tab : list val) (names : list name)
           (locs : list locstr) (rank coords : bool)
-| SubGrid (nx : list nat) (dx x0 : list Z) (lims : list (nat * nat)) (coords : bool).
+| SubGrid (nx : list nat) (dx x0 : list Z) (lims : list (nat * nat)) (coords : bool)
+| Migrate (refine : bool) (nx : list nat) (dx x0 : list Z) (nmult : list nat) (cell rank : bool).
 Definition gstate := (bool * state)%type.
 (* the script a creator runs, and the state it starts from *)
 Definition cmd_script (s : state) (c : cmd) : list op * state :=
@@ -872,13 +942,16 @@ Definition cmd_script (s : state) (c : cmd) : list op * state :=
   | SubGrid nx dx x0 lims coords =>
       let nxo := map (fun l => snd l - fst l) lims in
       (subgrid_script s nx dx x0 lims coords, reset_dims (grid_dims nxo [] true coords) (grid_nech nxo))
+  | Migrate refine nx dx x0 nmult cell rank =>
+      let (nc, ne) := migrate_dims refine nx nmult cell rank in
+      (migrate_script s refine nx dx x0 nmult cell rank, reset_dims nc ne)
   end.
 Definition cmd_grid (g : bool) (c : cmd) : bool :=
-  match c with Do _ => g | NewGrid _ _ _ _ _ _ _ _ _ | SubGrid _ _ _ _ _ => true | _ => false end.
+  match c with Do _ => g | NewGrid _ _ _ _ _ _ _ _ _ | SubGrid _ _ _ _ _ | Migrate _ _ _ _ _ _ _ => true | _ => false end.
 Definition exec (g : gstate) (c : cmd) : gstate :=
   match c with
   | Do o => (fst g, stepg (fst g) (snd g) o)
-  | SubGrid _ _ _ _ _ =>
+  | SubGrid _ _ _ _ _ | Migrate _ _ _ _ _ _ _ =>       (* methods of DbGrid: nothing happens on a plain Db *)
       if fst g then let (sc, s0) := cmd_script (snd g) c in (true, run_script sc s0) else g
   | _ => let (sc, s0) := cmd_script (snd g) c in (cmd_grid (fst g) c, run_script sc s0)
   end.
@@ -929,11 +1002,11 @@ Definition active_number (s : state) : nat :=
   | _ => length (filter (is_active s) (seq 0 (nech s)))
   end.
 
-(* getColumnByColIdx(icol, useSel = true, flagCompress) Db.cpp:3633: a sample is kept when its selection value is 1 *)
+(* getColumnByColIdx(icol, useSel = true, flagCompress) Db.cpp:3638: a sample is kept when its selection is defined and not 0 *)
 Definition column_sel (s : state) (c : nat) (compress : bool) : list val :=
   if c <? ncol s then
     let sel := selections s in
-    flat_map (fun e => let defined := match sel with [] => true | _ => is_one (nth e sel None) end in
+    flat_map (fun e => let defined := match sel with [] => true | _ => sel_on (nth e sel None) end in
                        if defined then [nth e (nth c (arr s) []) None] else if compress then [] else [None])
              (seq 0 (nech s))
   else [].
